@@ -150,11 +150,13 @@ def check_pair(ctx, cell, case):
         E = np.zeros_like(CW)
         for r in range(len(CW)):
             for blk in range(m):
-                w = int(rng.randint(1, t + 1)) if "flip_pos" not in case else len(case["flip_pos"])
+                # weights 0..t per block: clean blocks are mixed among corrupted ones (a decoder may treat them differently)
+                w = int(rng.randint(0, t + 1)) if "flip_pos" not in case else len(case["flip_pos"])
                 pos = rng.choice(n, size=w, replace=False) if "flip_pos" not in case else np.asarray(case["flip_pos"])
                 if "flip_pos" not in case and n <= 31 and r < n:
-                    pos = np.array([r])  # all single positions
-                E[r, blk * n + pos] = 1
+                    pos = np.array([r]) if blk == (r % m) else np.array([], dtype=int)  # every single position, in one block of the row, the other blocks clean
+                if len(pos):
+                    E[r, blk * n + pos] = 1
         flips_used = int(E.sum())
         RX = (CW + E) % 2
 
